@@ -16,6 +16,12 @@ import Proofs.VdrNonVol
 import Proofs.VdrExample
 import Martian.VdrFs
 import Proofs.VdrFs
+import Martian.VdrBuild
+import Proofs.VdrBuild
+import Martian.VdrVal
+import Proofs.VdrVal
+import Martian.VdrAll
+import Proofs.VdrAll
 
 namespace Props.C04
 open Martian.Vdr
@@ -170,7 +176,185 @@ theorem resolved_location_referenced (c : Cfg) (a : Arg) (fs : List FsEnt) (name
     rw [List.isEmpty_eq_false_iff_exists_mem]; exact ⟨r, hm⟩
   simp [hne, hm]
 
+/-! ### the holder sets are those the construction builds
+
+`kill_safe` and its corollaries take the holder sets (`Holds s0 a h`) as given.
+The theorems below derive them from the construction of the pipestance:
+`opsOf tr` is the sequence of `attachToFileParents` / `buildForks` / retain
+steps `NewPipestance` performs for the node tree `tr` with its resolved
+bindings, `build` executes them, `typedRefs` is the typed reference walk
+(`ResolvedBinding.FindRefs`).  `wfOps [] [] (opsOf tr)` — forks are built
+once and before they are referred to, a stage attaches once — is decided by
+the driver for every pipestance the harness builds, and the tables `build`
+yields are compared with the real ones on every run. -/
+
+/-- **consumer_registered** (soundness of the holder sets).  Every stage `n`
+of the tree one of whose resolved inputs contains, at a type that may name
+files, a reference to output `a` of node `p`, is a holder of `a` in THE table
+every fork of `p` starts with — and a post node of `p` listing `a`. -/
+theorem consumer_registered (tr : PTree) (w : wfOps [] [] (opsOf tr) = true) (n : Node) (ins : List Binding)
+    (hs : HasStage tr n ins) (b : Binding) (hb : b ∈ ins) (p : Node) (a : Arg)
+    (hr : (p, a, true) ∈ typedRefs b.1 b.2) :
+    ∃ t, (p, t) ∈ build (opsOf tr) ∧ (∀ t', (p, t') ∈ build (opsOf tr) → t' = t) ∧
+      (∀ disk, Holds (t.st disk) a (some n)) ∧
+      ∃ as, t.postNodes.lookup n = some as ∧ a ∈ as := by
+  obtain ⟨t, ht, hh⟩ := build_holds_mem w hs.mem (mem_fileRefs hb hr)
+  refine ⟨t, ht, fun t' h' => build_unique w h' ht, fun d => hh.st d, ?_⟩
+  obtain ⟨hs', hm, hin⟩ := hh
+  exact (build_bk w ht).cons a hs' hm n hin
+
+/-- … the outputs the top-level pipeline returns carry the nil holder … -/
+theorem top_level_registered (tr : PTree) (w : wfOps [] [] (opsOf tr) = true) (ret : List Binding)
+    (hs : HasTop tr ret) (b : Binding) (hb : b ∈ ret) (p : Node) (a : Arg)
+    (hr : (p, a, true) ∈ typedRefs b.1 b.2) :
+    ∃ t, (p, t) ∈ build (opsOf tr) ∧ ∀ disk, Holds (t.st disk) a none := by
+  obtain ⟨t, ht, hh⟩ := build_holds_mem w hs.mem (mem_fileRefs hb hr)
+  exact ⟨t, ht, fun d => hh.st d⟩
+
+/-- … and so does every output named by a `retain` of a stage or a pipeline. -/
+theorem retained_registered (tr : PTree) (w : wfOps [] [] (opsOf tr) = true) (p : Node) (a : Arg)
+    (hs : HasRetain tr p a) : ∃ t, (p, t) ∈ build (opsOf tr) ∧ ∀ disk, Holds (t.st disk) a none := by
+  obtain ⟨t, ht, hh⟩ := build_retained_mem w hs.mem
+  exact ⟨t, ht, fun d => hh.st d⟩
+
+/-- **args_present_at_start_built.**  End to end, without assuming the holder
+sets: a producer fork that starts with the tables the construction gives it
+keeps, under every interleaving, everything output `a` references for as long
+as a consuming stage bound to `a` (at a type that may name files) has not
+completed. -/
+theorem args_present_at_start_built (tr : PTree) (w : wfOps [] [] (opsOf tr) = true) (n : Node)
+    (ins : List Binding) (hs : HasStage tr n ins) (b : Binding) (hb : b ∈ ins) (p : Node) (a : Arg)
+    (hr : (p, a, true) ∈ typedRefs b.1 b.2) :
+    ∃ t, (p, t) ∈ build (opsOf tr) ∧
+      ∀ (c : Cfg) (disk : List DiskEnt) (evs : List Ev), CfgOK c (t.st disk) → c.volatile = true →
+        n ∉ (run c (t.st disk) evs).doneNodes →
+        ∀ d ∈ disk, isTmp d.kind = false → refs c a d.path = true → d ∈ (run c (t.st disk) evs).disk := by
+  obtain ⟨t, ht, _, hh, _⟩ := consumer_registered tr w n ins hs b hb p a hr
+  refine ⟨t, ht, ?_⟩
+  intro c disk evs ok hv hn d hd
+  exact args_present_at_start c (t.st disk) evs ok ⟨rfl, rfl⟩ hv a n (hh disk) hn d hd
+
+/-- **top_level_and_retained_never_removed_built.**  Likewise for what the
+top-level pipeline returns and for retained outputs: nothing they reference
+is ever removed from a fork that starts with the constructed tables. -/
+theorem top_level_and_retained_never_removed_built (tr : PTree) (w : wfOps [] [] (opsOf tr) = true)
+    (p : Node) (a : Arg)
+    (h : (∃ ret b, HasTop tr ret ∧ b ∈ ret ∧ (p, a, true) ∈ typedRefs b.1 b.2) ∨ HasRetain tr p a) :
+    ∃ t, (p, t) ∈ build (opsOf tr) ∧
+      ∀ (c : Cfg) (disk : List DiskEnt) (evs : List Ev), CfgOK c (t.st disk) → c.volatile = true →
+        ∀ d ∈ (run c (t.st disk) evs).removed, isTmp d.kind = false → refs c a d.path = false := by
+  have key : ∃ t, (p, t) ∈ build (opsOf tr) ∧ ∀ disk, Holds (t.st disk) a none := by
+    rcases h with ⟨ret, b, ht, hb, hr⟩ | hrt
+    · exact top_level_registered tr w ret ht b hb p a hr
+    · exact retained_registered tr w p a hrt
+  obtain ⟨t, ht, hh⟩ := key
+  refine ⟨t, ht, ?_⟩
+  intro c disk evs ok hv
+  exact top_level_and_retained_never_removed c (t.st disk) evs ok ⟨rfl, rfl⟩ hv a (hh disk)
+
+/-- **holders_sound.**  No reference through which a value reaches a consuming
+stage is overlooked: for every reference `p.a` in a value position of a
+resolved input of stage `n` (a binding the typed walk accepts: `wellTyped`,
+decided by the driver for every binding of every pipestance built), either
+`n` is registered as a holder of `a` in the table of `p`, or the walk binds
+the reference at a type that cannot name files — and a value of such a type
+names no file (`notfile_value_names_nothing`). -/
+theorem holders_sound (tr : PTree) (w : wfOps [] [] (opsOf tr) = true) (n : Node) (ins : List Binding)
+    (hs : HasStage tr n ins) (b : Binding) (hb : b ∈ ins) (hw : wellTyped b.1 b.2 = true) (p : Node) (a : Arg)
+    (hr : (p, a) ∈ b.1.valueRefs) :
+    (∃ t, (p, t) ∈ build (opsOf tr) ∧ ∀ disk, Holds (t.st disk) a (some n)) ∨
+    (p, a, false) ∈ typedRefs b.1 b.2 := by
+  obtain ⟨f, hf⟩ := (walk_covers b.1).1 b.2 hw (p, a) hr
+  cases f with
+  | false => exact Or.inr hf
+  | true =>
+    obtain ⟨t, ht, _, hh, _⟩ := consumer_registered tr w n ins hs b hb p a hf
+    exact Or.inl ⟨t, ht, hh⟩
+
+/-- A value that conforms to a type that cannot name files (`IsFile() ==
+KindIsNotFile`: int, float, bool and arrays, typed maps and structs of such;
+typed-map keys of such maps not being paths) contains nothing
+`getMaybeFileNames` would report. -/
+theorem notfile_value_names_nothing (v : Val) (t : Ty) (hc : conforms v t = true) (hf : t.isFile = false) :
+    v.names = [] :=
+  (notFile_names v).1 t hc hf
+
+/-- `cloneFork` (dynamic fork expansion) hands the new fork the same holder sets. -/
+theorem clone_keeps_holders (s : St) (disk : List DiskEnt) :
+    (∀ a h, Holds (cloneFork s disk) a h ↔ Holds s a h) ∧ Fresh (cloneFork s disk) :=
+  ⟨fun a h => cloneFork_holds s disk a h, ⟨rfl, rfl⟩⟩
+
+/-! ### the whole pipestance -/
+
+/-- **kill_safe_pipestance.**  All producer forks of a pipestance side by
+side, their events interleaved in any way, consumer completions seen by all
+of them (`grun`): after every global history every fork is exactly where its
+own projection of the history takes it, and for every volatile fork whatever
+it has removed below its files/ directories is referenced only by arguments
+whose every holder is a consumer that has completed. -/
+theorem kill_safe_pipestance (fs : List PFork) (evs : List GEv) :
+    grun fs evs = fs.map (fun f => { f with st := run f.cfg f.st (proj f.id evs) }) ∧
+    ∀ f ∈ fs, CfgOK f.cfg f.st → Fresh f.st → f.cfg.volatile = true →
+      ∀ d ∈ (run f.cfg f.st (proj f.id evs)).removed, isTmp d.kind = false →
+        ∀ a h, Holds f.st a h → refs f.cfg a d.path = true →
+          ∃ n, h = some n ∧ n ∈ (run f.cfg f.st (proj f.id evs)).doneNodes :=
+  ⟨grun_eq fs evs, fun f _ ok fr hv => kill_safe f.cfg f.st (proj f.id evs) ok fr hv⟩
+
+/-- … in particular every fork of the product keeps what an unfinished
+consumer's argument references, and what the top level or a retain holds. -/
+theorem args_present_at_start_pipestance (fs : List PFork) (evs : List GEv) (f : PFork) (hf : f ∈ fs)
+    (ok : CfgOK f.cfg f.st) (fr : Fresh f.st) (hv : f.cfg.volatile = true) (a : Arg) (h : Holder)
+    (hh : Holds f.st a h) (hn : ∀ n, h = some n → n ∉ (run f.cfg f.st (proj f.id evs)).doneNodes) :
+    ∃ f' ∈ grun fs evs, f'.id = f.id ∧
+      ∀ d ∈ f.st.disk, isTmp d.kind = false → refs f.cfg a d.path = true → d ∈ f'.st.disk := by
+  refine ⟨{ f with st := run f.cfg f.st (proj f.id evs) }, ?_, rfl, ?_⟩
+  · rw [grun_eq]; exact List.mem_map.mpr ⟨f, hf, rfl⟩
+  · intro d hd ht hr
+    have i := (Inv.init f.cfg f.st fr).run ok hv (proj f.id evs)
+    rcases i.split d hd with h1 | h1
+    · exact h1
+    · obtain ⟨m, e, hm⟩ := i.safe d h1 ht a h hh hr
+      exact absurd hm (hn m e)
+
 /-! ### non-vacuity -/
+
+/-- two forks, interleaved: the completion of `C` is seen by both -/
+example :
+    let fs : List PFork := [⟨"P1", exCfg, exSt⟩, ⟨"P2", exCfg, exSt⟩]
+    let evs : List GEv := [.fork "P1" .removeEmpty, .fork "P2" .cacheMap, .fork "P1" .cacheMap, .fork "P1" .kill,
+                           .nodeDone "C", .fork "P2" .kill]
+    proj "P1" evs = [.removeEmpty, .cacheMap, .kill, .nodeDone "C"] ∧
+    proj "P2" evs = [.cacheMap, .nodeDone "C", .kill] ∧
+    (grun fs evs).map (fun f => f.st.disk.length) = [3, 1] := by
+  refine ⟨rfl, rfl, by decide⟩
+
+
+/-- the construction hypotheses are satisfiable and the conclusions are not
+vacuous: `B` is registered for `A.o` (a file) but not for `A.n` (an int), the
+top level holds `B.o`, the retain holds `A.r` -/
+example :
+    wfOps [] [] (opsOf exTree) = true ∧
+    HasStage exTree "B" [(.ref "A" "o", .prim true), (.ref "A" "n", .prim false)] ∧
+    HasRetain exTree "A" "r" ∧
+    ((build (opsOf exTree)).lookup "A").map (·.fileArgs) = some [("r", [none]), ("o", [some "B"])] ∧
+    ((build (opsOf exTree)).lookup "A").map (·.postNodes) = some [("B", ["o"])] ∧
+    ((build (opsOf exTree)).lookup "B").map (·.fileArgs) = some [("o", [none])] := by
+  refine ⟨by decide, .child (.next .here), .child (.stage (by simp)), by decide, by decide, by decide⟩
+
+/-- values: names are found in strings and keys at any depth; an `int[]` value names nothing -/
+example :
+    (Val.obj (.vcons "/p/k" (.arr (.vcons "" (.str "/p/f") (.vcons "" (.str "rel") .vnil))) .vnil)).names
+      = ["/p/k", "/p/f"] ∧
+    conforms (.arr (.vcons "" .atom (.vcons "" .null .vnil))) (.arr (.prim false)) = true ∧
+    wellTyped (.map (.cons "f" (.ref "P" "x") .nil)) (.struct (.mcons "f" (.prim true) .mnil)) = true := by decide
+
+/-- the typed walk: a struct literal bound at a struct type, a split, a merge -/
+example :
+    typedRefs (.map (.cons "f" (.ref "P" "x") (.cons "n" (.ref "P" "y") .nil)))
+      (.struct (.mcons "f" (.prim true) (.mcons "n" (.prim false) .mnil))) = [("P", "x", true), ("P", "y", false)] ∧
+    typedRefs (.split false (.ref "P" "xs")) (.prim true) = [("P", "xs", true)] ∧
+    typedRefs (.merge (.ref "P" "x")) (.arr (.prim true)) = [("P", "x", true)] := by decide
+
 
 /-- the hypotheses of `kill_safe` are satisfiable -/
 example : CfgOK exCfg exSt ∧ Fresh exSt ∧ exCfg.volatile = true := by
